@@ -275,6 +275,24 @@ PROPS['C12'] = dict(
          'correspondence and the monitor, not by a theorem over the I/O loop. Trusted: Coq kernel and VM (the refutation is computed), '
          'model, extraction, harness incl. its conformant-broker mode, Python CONNACK conformance test. No axioms.')
 
+PROPS['C15'] = dict(
+    codec=[('reader', 600, 10000)],
+    twins=[('py_c15', 250, 4000)],
+    events='', state=['ret', 'ctl', 'rel', 'srv', 'quota', 'h', 'conn', 'live', 'rb', 'pl', 'pid', 'gen'],
+    monitors=[M.mon_panic],
+    twin_monitors=[M.twin_c15],
+    title='behaviour does not depend on how the transport fragments reads and writes',
+    claim='Proved in Coq for every stream and every fragmentation (no bound on lengths): the packet reader, driven by a transport '
+          'that hands over any 1 <= cnt <= window bytes at each read, produces the same packets (length and decode), the same '
+          'final reader state and the same unread rest — the big-step run relation is a function of (reader, stream), by a '
+          'confluence argument on the body phase and the fact that the header phase asks for one byte at a time; the executable '
+          'loop refines the relation; the pieces written from the recorded offset concatenate to the packet. Tied to the code by the '
+          'reader hook (same stream, generated fragment lists) and by twin runs: the same program and inbound stream executed with '
+          'whole and with randomly fragmented reads and writes (1, 2, 3, 5 bytes) on the implementation and on the model, comparing '
+          'operation results, delivered messages and the outbound byte stream.',
+    note='Partial: the relation between two whole executions is checked on runs, proved for the reader and the write arithmetic. '
+         'Trusted: Coq kernel, model, extraction, harness, reader hook. No axioms.')
+
 TRUSTED_BASE = [
     'Coq 8.16.1 kernel and its bytecode VM (vm_compute); native_compute is not used',
     'axioms: none (every property theorem is reported "Closed under the global context" by Print Assumptions)',
